@@ -58,8 +58,9 @@ fn show(e: &(SourceEventKind, ChangedFileKind)) -> String {
     format!("{:?} as {k}", e.0)
 }
 
-const SCENARIOS: [&str; 9] = ["modify source file", "create source file", "remove source file", "rename source file", "remove folder",
-    "schema modified in place", "schema saved atomically", "schema removed", "schema renamed away"];
+const SCENARIOS: [&str; 12] = ["modify source file", "create source file", "remove source file", "rename source file", "remove folder",
+    "schema modified in place", "schema saved atomically", "schema removed", "schema renamed away",
+    "source file moved out of the project", "folder moved out of the project", "source file saved atomically"];
 
 async fn scenario(root: &Path, kind: usize, settle: Duration) -> Result<usize, String> {
     make_project(root);
@@ -81,7 +82,10 @@ async fn scenario(root: &Path, kind: usize, settle: Duration) -> Result<usize, S
         5 => write(&schema, new_schema),
         6 => { let tmp = root.join("schema.graphql.tmp"); write(&tmp, new_schema); fs::rename(&tmp, &schema).unwrap(); }
         7 => fs::remove_file(&schema).unwrap(),
-        _ => fs::rename(&schema, root.join("schema.moved")).unwrap(),
+        8 => fs::rename(&schema, root.join("schema.moved")).unwrap(),
+        9 => fs::rename(root.join("src/old/Legacy.ts"), root.join("Legacy.moved.ts")).unwrap(),
+        10 => fs::rename(root.join("src/old"), root.join("old.moved")).unwrap(),
+        _ => { let tmp = root.join("src/old/.Legacy.ts.swp"); write(&tmp, &component("Legacy", "world")); fs::rename(&tmp, root.join("src/old/Legacy.ts")).unwrap(); }
     }
     // collect every batch that arrives until the watcher has been quiet for `settle`
     let mut delivered: Vec<String> = vec![];
@@ -93,8 +97,14 @@ async fn scenario(root: &Path, kind: usize, settle: Duration) -> Result<usize, S
                 n_events += changes.len();
                 if has_config_changes(&changes) { return Err(format!("{}: unexpected config change event", SCENARIOS[kind])); }
                 if let Err(es) = update_sources(&mut state.db, &changes) {
-                    // the watcher would stop here (handle_watch_command returns the error)
-                    let _ = es;
+                    // handle_watch_command returns this error: watch mode ENDS here
+                    watcher.stop();
+                    let fresh_ok = std::panic::catch_unwind(|| { let mut s = new_state(root); outcome(root, &mut s).0.is_empty() }).unwrap_or(false);
+                    let msg = format!("{}: update_sources fails ({:?}), so watch mode stops (events delivered: {delivered:?})", SCENARIOS[kind], es.iter().map(|e| e.to_string()).collect::<Vec<_>>());
+                    // acceptable only if a fresh start cannot proceed either
+                    if fresh_ok { return Err(format!("{msg}, although a fresh batch compile of the files succeeds")); }
+                    println!("{msg}; a fresh start fails too");
+                    return Ok(n_events);
                 }
             }
             Ok(Some(Err(errs))) => return Err(format!("{}: the watcher reported errors: {errs:?}", SCENARIOS[kind])),
@@ -130,7 +140,7 @@ fn main() {
     let root = PathBuf::from(std::env::args().nth(1).unwrap_or("p_watch_real".into()));
     let root = if root.is_absolute() { root } else { std::env::current_dir().unwrap().join(root) };
     let settle = Duration::from_millis(std::env::args().nth(2).and_then(|s| s.parse().ok()).unwrap_or(1500));
-    std::panic::set_hook(Box::new(|_| {}));
+    if std::env::var("SHOW_PANICS").is_err() { std::panic::set_hook(Box::new(|_| {})); }
     let rt = tokio::runtime::Builder::new_multi_thread().enable_all().build().unwrap();
     // control: a plain modification of a source file must be seen by the watcher
     match rt.block_on(scenario(&root, 0, settle)) {
@@ -138,9 +148,14 @@ fn main() {
         Ok(_) => {}
         Err(m) => { println!("DIFFERENT: {m}"); std::process::exit(1); }
     }
+    let mut bad = 0;
     for kind in 1..SCENARIOS.len() {
-        if let Err(m) = rt.block_on(scenario(&root, kind, settle)) { println!("DIFFERENT: {m}"); std::process::exit(1); }
+        if rt.block_on(scenario(&root, kind, settle)).is_err() {
+            // timing: a difference is reported only if it shows again with four times the settle time
+            if let Err(m) = rt.block_on(scenario(&root, kind, settle * 4)) { println!("DIFFERENT: {m}"); bad += 1; }
+        }
     }
     let _ = fs::remove_dir_all(&root);
+    if bad > 0 { std::process::exit(1); }
     println!("scenarios={} the real watcher + categorisation + handlers agree with a fresh batch compile", SCENARIOS.len());
 }
